@@ -17,21 +17,21 @@ PROPS = {
 _T = "Trusted: Coq kernel + vm_compute, the hand-written model (tied by correspondence, not derived from source), Go harness/emitter."
 PROPS["C01"] = {
     "parts": [ENGINE],
-    "level_text": "Theorem C01_lifecycle: for every oracle (all user code / outcome scripts), every table of full user nodes and flows of any nesting, every budget and fuel, the trace appended by run is accepted by the lifecycle monitor (prep once with the run's store; exec attempts with exactly prep's value; fallback only after N failures; post iff the exec phase produced a result, with store, prep value and that result; nothing after a fatal callback) with a final state agreeing with the outcome; C01_outcome_exclusive: action xor error. The same monitor judges the implementation's traces; the model is tied to the code by exhaustive enumeration of node kinds x budgets x outcome scripts with trace equality.",
+    "level_text": "Theorem C01_lifecycle: for every oracle (all user code / outcome scripts), every table of full user nodes and flows of any nesting, every budget and fuel, the trace appended by run is accepted by the lifecycle monitor (prep once with the run's store; exec attempts with exactly prep's value; fallback only after N failures; post iff the exec phase produced a result, with store, prep value and that result; nothing after a fatal callback) with a final state agreeing with the outcome; C01_outcome_exclusive: action xor error. The same monitor judges the implementation's traces; the model is tied to the code by exhaustive enumeration of node kinds x budgets (including 0 and -1, which both the model and the repaired code treat as 1) x outcome scripts x 12 payload kinds x late Connect calls, with trace equality.",
     "level_note": _T + " Nodes with absent phases are covered by trace equality with the model only (the monitor applies to nodes whose three phases are user-visible).",
     "explanation": "lifecycle monitor proved of every model run; exhaustive script enumeration against the implementation",
     "assumptions": ["C01 scenarios never cancel the context (C05 does)"],
 }
 PROPS["C02"] = {
     "parts": [ENGINE],
-    "level_text": "Theorems C02_budget_exact (exactly min(k,N) exec attempts for every oracle, N>=1; on exhaustion the loop's error is the last attempt's), C02_batch_item (same for runExecWithRetries plus: fallback exactly once iff all N failed and the node has its own fallback, with the item and the last error, never after a success), C02_copies_agree, C02_no_retry_iface; the lifecycle monitor (attempt k+1 only after k failures and k<N, fallback only after N failures with the last error) judges the implementation's traces; correspondence: every outcome vector in {ok,fail}^(N+1) for N in 1..5 (quick) / 1..8 (thorough) x fallback kinds x 8 node kinds.",
+    "level_text": "Theorems C02_budget_exact (exactly min(k,N) exec attempts for every oracle, N>=1; on exhaustion the loop's error is the last attempt's), C02_batch_item (same for runExecWithRetries plus: fallback exactly once iff all N failed and the node has its own fallback, with the item and the last error, never after a success), C02_copies_agree, C02_no_retry_iface; the lifecycle monitor (attempt k+1 only after k failures and k<N, fallback only after N failures with the last error) judges the implementation's traces; correspondence: every outcome vector in {ok,fail}^(N+1) for N in 1..5 (quick) / 1..8 (thorough) and the configured budgets 0 and -1 (C02_budget_at_least_one: a budget below one is one) x fallback kinds x 8 node kinds.",
     "level_note": _T,
     "explanation": "counting theorems on the retry loop and its batch copy; exhaustive outcome-vector enumeration against the implementation",
     "assumptions": ["no cancellation inside C02 scenarios"],
 }
 PROPS["C04"] = {
     "parts": [ENGINE],
-    "level_text": "Theorem C04_transparent_fail_stop: for every node kind, oracle, nesting depth and fuel, a failed run's error is a framework error, or the context's error with the context cancelled, or matches (same root through every wrap) the error returned by the LAST callback in the log - so nothing ran after the failure at any depth; C04_nil_iff via the lifecycle monitor. spec_C04 (monitor + fail_last_ok) is proved of the model and applied to the implementation; correspondence: a single failure injected at every callback position of the fault-free path of generated nested flows, in 4 error flavours.",
+    "level_text": "Theorem C04_transparent_fail_stop: for every node kind, oracle, nesting depth and fuel, a failed run's error is a framework error, or the context's error with the context cancelled, or matches (same root through every wrap) the error returned by the LAST callback in the log - so nothing ran after the failure at any depth; C04_nil_iff via the lifecycle monitor. spec_C04 (monitor + fail_last_ok) is proved of the model and applied to the implementation; correspondence: a single failure injected at every callback position of the fault-free path of generated nested flows, in 8 error flavours (plain, %w-wrapped, custom type, wrapping a context error of a live context, non-comparable, errors.Join, outer type with a foreign cause; a stale value is returned beside every error); spec_C04x adds that a framework error is one the table can actually cause (C04_specx_holds_of_model).",
     "level_note": _T,
     "explanation": "FailLast proved by induction over fuel and nesting; single-fault injection at every callback of generated flows",
     "assumptions": ["error text is not modelled: only errors.Is/As classes"],
@@ -59,7 +59,7 @@ PROPS["C10"] = {
 }
 PROPS["C17"] = {
     "parts": [ENGINE],
-    "level_text": "Theorems C17_prep_to_exec, C17_exec_to_post_value, C17_exec_to_post_error, C17_styles_interchangeable, C17_batch_item, C17_batch_slot: for all 8 Result/Any style combinations and every payload that is not itself a Result, the exec function observes exactly what the prep function returned, the post function observes exactly what exec returned (an error Result stays one error Result: never wrapped twice, never stripped; Any style sees Value()), and the two styles differ by Value() in every position; the lifecycle monitor (C01) compares every callback argument of the implementation with these adapter functions; correspondence: 8 styles x option/builder/mixed x 9 payload kinds (incl. typed nils, Results, error Results) x success / retry / fallback paths x single / in flow, plus sequential batches over 7 prep shapes.",
+    "level_text": "Theorems C17_prep_to_exec, C17_exec_to_post_value, C17_exec_to_post_error, C17_styles_interchangeable, C17_batch_item, C17_batch_slot: for all 8 Result/Any style combinations and every payload that is not itself a Result, the exec function observes exactly what the prep function returned, the post function observes exactly what exec returned (an error Result stays one error Result: never wrapped twice, never stripped; Any style sees Value()), and the two styles differ by Value() in every position; the lifecycle monitor (C01) compares every callback argument of the implementation with these adapter functions; correspondence: 8 styles x option/builder/mixed x 12 payload kinds (incl. typed nils, Results, error Results, containers compared by identity) x success / retry / fallback paths x single / in flow, plus sequential batches over 7 prep shapes.",
     "level_note": _T + " Concurrent batches are exercised by the batch family.",
     "explanation": "adapter algebra proved for every payload; monitor compares arguments; enumeration of styles x payload kinds",
     "assumptions": ["payload identity is pointer identity for tokens; other payload kinds are compared by kind"],
@@ -93,7 +93,7 @@ PROPS["C09"] = {
 }
 PROPS["C11"] = {
     "parts": [_BATCH],
-    "level_text": "Theorems over ALL schedules (the environment's cancel step may occur anywhere): C11_no_new_work - once the context is cancelled no item gains an exec attempt except that an exec call already in flight may return (no new item, no new retry attempt, at most one committed call per worker); C11_cancellation_permanent; C11_terminates_no_deadlock; C11_slots - never-executed items carry an error slot, items cut short carry a context-class error. Correspondence: cancellation before the run and from inside the exec of every item index and attempt, n<=6 (quick) / 12, c in 0..4, both modes, w in {0,1ms}; spec_C11 walks the implementation's trace (after the cancelling callback only calls that were in flight may still appear, exactly one post, error slots).",
+    "level_text": "Theorems over ALL schedules (the environment's cancel step may occur anywhere): C11_no_new_work - once the context is cancelled no item gains an exec attempt except that an exec call already in flight may return (no new item, no new retry attempt, at most one committed call per worker); C11_cancellation_permanent; C11_terminates_no_deadlock; C11_slots - never-executed items carry an error slot, items cut short carry a context-class error. Correspondence: cancellation before the run and from inside the exec of every item index and attempt, n<=6 (quick) / 12, c in 0..4, both modes, w in {0,1ms}; spec_C11 walks the implementation's trace (after the cancelling callback only calls that were in flight may still appear, exactly one post, error slots; items_mon_ok: every item's own calls form attempt / wait / fallback in order).",
     "level_note": _TB,
     "explanation": "allowance invariant for all continuations; cancellation point sweep",
     "assumptions": ["cancellation is issued from inside callbacks in correspondence scenarios; the theorem also covers an asynchronous cancel step"],
@@ -101,7 +101,7 @@ PROPS["C11"] = {
 
 PROPS["C14"] = {
     "parts": [{"family": "store", "admits": "StoreCorr.admits_store", "model_obs": None}],
-    "level_text": "Theorem C14_isolated: for every operation sequence of any length (store operations, mutations of the maps and slices handed out, merges of those maps back) naming only objects that were handed out, every answer of the heap machine - the store as the Go code structures it: current map object updated in place, Clear re-allocating, GetAll and Keys copying into fresh objects - equals the answer of the machine in which the store is a map value and snapshots are separate values; C14_get_set / _get_delete / _get_merge (finite-map laws, Merge overwrites key-wise with the last binding, stored nil present), C14_reachable_nodup and C14_answers_consistent (Has/Len/Keys/GetAll agree). The implementation's answers must equal the heap machine's (admits) and the value machine's (spec_C14) on seeded sequences with ~15% snapshot mutations and a hostile corpus.",
+    "level_text": "Theorem C14_isolated: for every operation sequence of any length (store operations, mutations of the maps and slices handed out, merges of those maps back) naming only objects that were handed out, every answer of the heap machine - the store as the Go code structures it: current map object updated in place, Clear re-allocating, GetAll and Keys copying into fresh objects - equals the answer of the machine in which the store is a map value and snapshots are separate values; C14_get_set / _get_delete / _get_merge (finite-map laws, Merge overwrites key-wise with the last binding, stored nil present), C14_reachable_nodup and C14_answers_consistent (Has/Len/Keys/GetAll agree). The implementation's answers must equal the heap machine's (admits) and the value machine's (spec_C14) on seeded sequences with ~15% snapshot mutations, twin values that are equal but not identical (so handing out a copy of a value instead of the value shows), map[string]any arguments, and a hostile corpus.",
     "level_note": _T + " Keys and values are identifiers; Go values of ten kinds (nil, scalars, slices, maps, pointers, structs, funcs) stand behind them. Locking is C13.",
     "explanation": "refinement heap machine -> value machine for all histories; differential runs with snapshot mutation",
     "assumptions": ["a Keys() slice is sorted by the scenario as soon as it is obtained (map iteration order is unspecified)"],
@@ -117,7 +117,7 @@ PROPS["C15"] = {
 
 PROPS["C16"] = {
     "parts": [{"family": "bind", "admits": "BindCorr.admits_bind", "model_obs": "model_bobs"}],
-    "level_text": "Theorems for ALL marshal / unmarshal functions (encoding/json is a parameter), all values and destinations: C16_no_panic (no partial reflect operation is reached outside its domain: IsNil only after Kind = Ptr), C16_errors (nil result value, missing key, untyped nil / non-pointer / nil-pointer destination: an error of that class, nothing written), C16_identity (destination of the value's own dynamic type: the value itself, no JSON), C16_json (otherwise exactly marshal then unmarshal into the destination, errors included), C16_store_result_agree (every non-nil value). spec_C16 is proved of the model and applied to the implementation: Result.Bind and SharedStore.Bind on the full product of 32 values x 27 destinations against a reference encoding/json round trip on a clone (class of the outcome, wrapped error text, deep equality of the pointee with the reference / the value / its old contents, source unchanged).",
+    "level_text": "Theorems for ALL marshal / unmarshal functions (encoding/json is a parameter), all values and destinations: C16_no_panic (no partial reflect operation is reached outside its domain: IsNil only after Kind = Ptr), C16_errors (nil result value, missing key, untyped nil / non-pointer / nil-pointer destination: an error of that class, nothing written), C16_identity (destination of the value's own dynamic type: the value itself, no JSON), C16_json (otherwise exactly marshal then unmarshal into the destination, errors included), C16_store_result_agree (every non-nil value). spec_C16 is proved of the model and applied to the implementation: Result.Bind and SharedStore.Bind on the full product of 38 values x 28 destination kinds (34 with the pre-populated variants; flyt.Result held as a value and *flyt.Result as a destination included) against a reference encoding/json round trip on a clone (class of the outcome, wrapped error text, deep equality of the pointee with the reference / the value / its old contents, source unchanged).",
     "level_note": _T + " Destinations aliasing the source value are not generated (stated assumption).",
     "explanation": "decision structure of Bind for all JSON functions; product of values and destinations against a reference round trip",
     "assumptions": ["NaN / Inf payloads are left out of the deep-equality comparison in the thorough tier"],
